@@ -45,6 +45,49 @@ fn replay_calls<T: Eq + std::hash::Hash + Clone>(spec: &Spec, lab: impl Fn(u32) 
     b.build()
 }
 
+fn one_call(b: &mut AutomatonBuilder<u32>, c: &Call) {
+    match c {
+        Call::Trans(s, a, x, t) => {
+            b.add_transition(s, &CharSet::range(*a, *x), t);
+        }
+        Call::Default(s, t) => {
+            b.set_default_successor(s, t);
+        }
+        Call::Final(s) => {
+            b.mark_final(s);
+        }
+        Call::Build => {
+            let _ = b.build();
+        }
+        Call::BuildUnchecked => {
+            let _ = guard(|| b.build_unchecked());
+        }
+    }
+}
+
+/// two builders alive at the same time: the calls of `a` and `b` alternate, then both are built
+pub fn build_two_interleaved(a: &Spec, b: &Spec) -> (Result<Result<Automaton, Error>, String>, Result<Result<Automaton, Error>, String>) {
+    let r = guard(|| {
+        let mut ba: AutomatonBuilder<u32> = AutomatonBuilder::new(&a.init);
+        let mut bb: AutomatonBuilder<u32> = AutomatonBuilder::new(&b.init);
+        for k in 0..a.calls.len().max(b.calls.len()) {
+            if let Some(c) = a.calls.get(k) {
+                one_call(&mut ba, c);
+            }
+            if let Some(c) = b.calls.get(k) {
+                one_call(&mut bb, c);
+            }
+        }
+        let rb = bb.build();
+        let ra = ba.build();
+        (ra, rb)
+    });
+    match r {
+        Ok((ra, rb)) => (Ok(ra), Ok(rb)),
+        Err(m) => (Err(m.clone()), Err(m)),
+    }
+}
+
 /// replay the builder calls on the real builder
 /// like build_spec, but build() is called twice on the same builder; returns the SECOND result
 pub fn build_spec_twice(spec: &Spec) -> Result<Result<Automaton, Error>, String> {
